@@ -58,7 +58,7 @@ OPS = ["add", "radd", "sub", "rsub", "mul", "rmul", "div", "neg"]
 def arith_case(draw, tier="quick"):
     spec = draw(tensor_spec(3))
     op = draw(st.sampled_from(OPS))
-    other = draw(st.sampled_from(["tensor", "ndarray", "ndarray_bcast", "ndarray_lead", "ndarray_lead", "int", "float", "complex", "npscalar", "zerod"]))
+    other = draw(st.sampled_from(["tensor", "ndarray", "ndarray_bcast", "ndarray_lead", "ndarray_lead", "int", "float", "complex", "npscalar", "zerod", "uint8", "uint16", "bool", "point"]))
     if op in ("mul", "rmul", "div"):
         other = draw(st.sampled_from(["int", "float", "complex", "npscalar", "zerod"]))
     val = draw(st.integers(-4, 4).filter(bool))
@@ -78,6 +78,20 @@ def make_other(kind, val, arr):
         lead = (2, 1) if val % 2 else (3,)
         v = (np.arange(C.prod(lead) * arr.size).reshape(lead + arr.shape) % 5 + val).copy()
         return v, v
+    if kind in ("uint8", "uint16"):
+        # an unsigned array (values 1 ... 7): the result is the array result of the float / int tensor and this operand
+        v = ((np.arange(arr.size).reshape(arr.shape) * 3 + abs(val)) % 7 + 1).astype(kind)
+        return v, v
+    if kind == "bool":
+        v = (np.arange(arr.size).reshape(arr.shape) + val) % 2 == 0
+        return v, v
+    if kind == "point":
+        # a Point object whose coordinate vector has the length of the last axis (last coordinate 1 or another representative):
+        # for a plain tensor it is just another tensor operand, elementwise on the coordinate arrays
+        if arr.shape[-1] not in (3, 4):
+            raise Skip("no point of this size")
+        v = np.append(np.arange(arr.shape[-1] - 1, dtype=float) + val, 1.0) * (2.0 if val % 2 else 1.0)
+        return G.Point(v), v
     if kind == "int":
         return int(val), val
     if kind == "float":
@@ -127,8 +141,12 @@ def run_arith(case):
     t, arr = build_tensor(case["spec"])
     x, xa = make_other(case["other"], case["val"], arr)
     op = case["op"]
-    if case["other"] == "tensor" and op in ("radd", "rsub"):
+    if case["other"] in ("tensor", "point") and op in ("radd", "rsub"):
         raise Skip("both operands tensors: the left operand determines the index types, same as add/sub")
+    if case["other"] == "point" and case["ufunc"]:
+        # np.add(t, point): numpy hands the call to the operand of the more derived class first, so the Point decides the index
+        # types (reflected call) - which operand is "t" is not defined by the statement for two tensor operands of different class
+        raise Skip("ufunc form with two tensor operands of different classes")
     site = f"tensor:{op}:{case['other']}" + (":ufunc" if case["ufunc"] else "")
     res, f = call_op(site, op, t, x, case["ufunc"])
     if f:
